@@ -46,7 +46,7 @@ class World:
         self.nprog = 0  # number of events other than select/poll
         self.faults = {}  # (sock name, op) -> list of errno-or-None consumed per call
         self.observe_time = False  # time() is a scheduling point only when clock events exist
-        self.sticky = (errno.ECONNRESET, errno.EPIPE, errno.ENOTCONN, errno.ESHUTDOWN, errno.ECONNABORTED)
+        self.sticky = (errno.ECONNRESET, errno.EPIPE, errno.ENOTCONN, errno.ESHUTDOWN, errno.ECONNABORTED, errno.ETIMEDOUT, errno.EHOSTUNREACH)
         # calls that would have blocked the calling thread in the kernel because the descriptor was left
         # in blocking mode: (object, operation, thread).  Reported by every driver as a violation.
         self.blocked = []
